@@ -193,3 +193,46 @@ Proof.
     + pose proof (sqd_tree S rho dimf a 4%nat Hd HS). pose proof (sqd_tree S0 rho dimf a 4%nat Hd HS0).
       simpl detd. rewrite !det4_scale by assumption. specialize (IHa 4%nat Hd). simpl detd in IHa. rewrite IHa. ring.
 Qed.
+
+(* the symbolic exponent of a composite evaluates to the tree exponent of its constituents' exponents *)
+Lemma tree_exponent_interp calls x rho t :
+  tree_syms_ok (List.length calls) t = true ->
+  (forall k c, nth_error calls k = Some c -> x k = interpC rho (call_exponent c)) ->
+  tree_exponent x t = interpC rho (tree_exponent_expr calls t).
+Proof.
+  intros Hok Hx. induction t as [k|a IHa b IHb|a IHa b IHb|c a IHa]; simpl in *.
+  - destruct (nth_error calls k) as [c|] eqn:E.
+    + now apply Hx.
+    + apply Nat.ltb_lt in Hok. apply nth_error_None in E. exfalso. apply (PeanoNat.Nat.lt_irrefl k). eapply PeanoNat.Nat.lt_le_trans; eauto.
+  - apply andb_prop in Hok as [H1 H2]. now rewrite IHa, IHb.
+  - apply andb_prop in Hok as [H1 H2]. now rewrite IHa, IHb.
+  - now apply IHa.
+Qed.
+
+Definition comp_det_law (cp : composite) (spec : expr) : Prop :=
+  forall rho (S S0 : nat -> Cmat) (x : nat -> C),
+  (forall k, sqd (comp_dimf cp k) (S k)) -> (forall k, sqd (comp_dimf cp k) (S0 k)) ->
+  (forall k, detd (comp_dimf cp k) (S k) = cexp (x k) * detd (comp_dimf cp k) (S0 k)) ->
+  (forall k c, nth_error (cp_calls cp) k = Some c -> x k = interpC rho (call_exponent c)) ->
+  det4 (interpT S rho (cp_tree cp)) = cexp (interpC rho spec) * det4 (interpT S0 rho (cp_tree cp)).
+
+Lemma comp_det_law_of cp spec :
+  tree_dim (comp_dimf cp) (cp_tree cp) = Some 4%nat ->
+  tree_syms_ok (List.length (cp_calls cp)) (cp_tree cp) = true ->
+  expr_eqb cf (comp_exponent cp) spec = true -> comp_det_law cp spec.
+Proof.
+  intros Hd Hok He rho S S0 x HS HS0 Hdet Hx.
+  pose proof (det_tree_ratio S S0 x rho (comp_dimf cp) (cp_tree cp) 4%nat Hd HS HS0 Hdet) as H. simpl detd in H.
+  rewrite H. f_equal. f_equal. rewrite (tree_exponent_interp _ x rho _ Hok Hx). now apply (expr_eq_sound cf).
+Qed.
+
+Theorem composite_det_laws :
+  comp_det_law gen_comp_CNOT (ENeg (EMul tvar (EAdd iT1c iT1t))) /\
+  comp_det_law gen_comp_CNOT_inv (ENeg (EMul tvar (EAdd iT1c iT1t))) /\
+  comp_det_law gen_comp_ECR (ENeg (EMul (ESub tvar tg) (EAdd iT1c iT1t))) /\
+  comp_det_law gen_comp_ECR_inv (ENeg (EMul (EAdd tvar tg) (EAdd iT1c iT1t))).
+Proof.
+  destruct comp_trees_typed as ((D1 & _) & (D2 & _) & (D3 & _) & (D4 & _)).
+  destruct comp_syms_ok as (O1 & O2 & O3 & O4). destruct comp_exponents_spec as (X1 & X2 & X3 & X4).
+  repeat split; apply comp_det_law_of; assumption.
+Qed.
